@@ -19,6 +19,7 @@ func init() {
 			"R2": "predicate definitions (truth tables): ShouldPause, auto-open, alive",
 			"R3": "handler always scheduled: continue step returns delay(handler); delay runs the handler unless cancelled",
 			"R4": "no silent drop in the open-game callback unless excluded by the set-up guard (participants provenance)",
+			"R5": "the participants handed to set-up are the whole list of settled participants that still have chips, passed settle → continue → handler unchanged",
 		},
 		Assumptions: []string{"timebank runs the task; syncsaga fires the completion (C09)"},
 		Run:         checkC08,
@@ -377,6 +378,86 @@ func checkC08(c *Ctx) {
 		c.Check(ok, "R3", "delay-runs-handler", p.Pos(delayFn.Pos()), "handler invoked on the not-cancelled edge; result awaited", "the delay helper does not run the handler it is given (unless cancelled) and wait for it")
 	} else {
 		c.Bad("R3", "delay-runs-handler", "-", "delay helper not found")
+	}
+
+	// ---------------- R5 who is waited for: the settled participants that still have chips
+	{
+		okChain := true
+		d := ""
+		// (a) the handler builds the participants from a range over the continue step's parameter
+		src := ""
+		for _, b := range handler.Blocks {
+			for _, in := range b.Instrs {
+				if mu, isMU := in.(*ssa.MapUpdate); isMU && typeShort(mu.Map.Type()) == "map[string]int" {
+					k := p.Sym(mu.Key).Strip()
+					if k.IsField("TablePlayerState", "PlayerID") && k.Args[0].Strip().Kind == "index" {
+						coll := k.Args[0].Strip().Args[0].Strip()
+						src = coll.String()
+						full := fullRange(k.Args[0].Strip().Args[1], func(x *Sym) bool { return x.String() == coll.String() })
+						if !full {
+							okChain, d = false, "the set-up participants are not built from the whole list"
+						}
+						if !(len(lc.continueFn.Params) >= 2 && symIsParam(coll, lc.continueFn.Params[1])) && !coll.IsCall("Table.AlivePlayers") {
+							okChain, d = false, "the set-up participants come from "+coll.String()
+						}
+					}
+				}
+			}
+		}
+		if src == "" {
+			okChain, d = false, "the continue handler builds no participant set"
+		}
+		// (b) every caller passes the settle step's result; (c) that result collects the credited players with chips
+		if okChain && len(lc.continueFn.Params) >= 2 {
+			for _, site := range p.CG().AllCallSitesOf(lc.continueFn) {
+				a := p.Sym(site.Common().Args[1]).Strip()
+				if !(a.Kind == "call" && a.Call.Common().StaticCallee() == lc.settleFn) {
+					okChain, d = false, "the continue step is given "+a.String()+", not the settle step's survivors"
+				}
+			}
+			n := 0
+			for _, ci := range Calls(lc.settleFn) {
+				cs := p.CallSym(ci)
+				if cs.Kind != "builtin" || cs.Name != "append" || typeShort(ci.Common().Args[0].Type()) != "[]*TablePlayerState" {
+					continue
+				}
+				e := appendedElem(p, ci)
+				if e == nil {
+					continue
+				}
+				n++
+				chips := cmpHolds(p.Guards(ci), func(l, r *Sym, op token.Token) bool {
+					return op == token.GTR && r.Strip().Name == "0" && l.Strip().IsField("TablePlayerState", "Bankroll") && l.Strip().Args[0].Strip().String() == e.Strip().String()
+				})
+				if !chips {
+					okChain, d = false, "the settle step lists a survivor without testing that player's bankroll > 0"
+				}
+				// the survivor is the player just credited: same object as the bankroll store of this iteration
+				credited := false
+				for _, ss := range p.Stores([]*ssa.Function{lc.settleFn}) {
+					if ss.Owner == "TablePlayerState" && ss.Field == "Bankroll" && ss.Addr.Strip().Args[0].Strip().String() == e.Strip().String() {
+						credited = true
+					}
+				}
+				if !credited {
+					okChain, d = false, "the settle step's survivors are not the players it credits"
+				}
+			}
+			if n == 0 {
+				okChain, d = false, "the settle step returns no survivor list"
+			}
+			// and it is what the function returns
+			for _, b := range lc.settleFn.Blocks {
+				for _, in := range b.Instrs {
+					if r, isR := in.(*ssa.Return); isR && len(r.Results) == 1 {
+						if !p.Sym(r.Results[0]).Contains(func(x *Sym) bool { return x.Kind == "builtin" && x.Name == "append" }) {
+							okChain, d = false, "the settle step does not return the survivor list it built"
+						}
+					}
+				}
+			}
+		}
+		c.Check(okChain, "R5", "set-up-participants-chain", p.Pos(handler.Pos()), "participants = settled participants with chips (settle → continue → handler)", "who the next hand waits for: "+d)
 	}
 
 	// ---------------- R4 open-game callback
